@@ -1865,7 +1865,7 @@ def is_zero(value):
 
 
 def wrap_in_cse(expr, prefix=None):
-    if isinstance(expr, (Variable, Subscript)):
+    if isinstance(expr, (Variable, Subscript)) or is_constant(expr):
         return expr
 
     if isinstance(expr, CommonSubexpression):
